@@ -68,9 +68,10 @@ extern _Bool __verif_crashed;       /* a crash path (__builtin_trap) was entered
 extern _Bool __verif_crash_is_bug;  /* harness: inputs are valid, crash must be unreachable */
 extern unsigned long long __verif_last_load;     /* value returned by the most recent atomic load */
 extern const volatile void *__verif_last_load_p; /* ... and its location */
+extern int __verif_last_load_mo;                 /* ... and its memory order (-1: the load half of an RMW / store) */
 extern const volatile void *__verif_ptrloc; extern void *__verif_ptrobj;
 
-#define VERIF_GHOST  __verif_n, __CPROVER_object_whole(__verif_log), __verif_crashed, __verif_last_load, __verif_last_load_p
+#define VERIF_GHOST  __verif_n, __CPROVER_object_whole(__verif_log), __verif_crashed, __verif_last_load, __verif_last_load_p, __verif_last_load_mo
 #define LOGK(i) (__verif_log[i].kind)
 #define LOGP(i) (__verif_log[i].p)
 #define LOGA(i) (__verif_log[i].a)
@@ -121,7 +122,7 @@ static inline void __verif_event(int kind, int mo, const volatile void *p,
 		__verif_log[__verif_n].a = a;
 		__verif_log[__verif_n].b = b;
 	}
-	__verif_n++;
+	if (__verif_n < 0x7fffffffu) __verif_n++; /* saturating: a loop that logs for ever cannot wrap onto entry 0 */
 }
 /* per-harness guarantee: checked at EVERY commit (also inside loops whose log overflows):
  * what this function may do to *p, as a predicate over (p, old, new, order) */
@@ -161,12 +162,13 @@ static inline void __verif_trap(void)
 		_os_atomic_basetypeof(p) __vlv = (_os_atomic_basetypeof(p))__verif_nd(); \
 		__vlv = __VERIF_PTRFIX((p), __vlv); \
 		__CPROVER_assume(__VERIF_RELY((p), __vlv)); \
-		__verif_last_load = (unsigned long long)__vlv; __verif_last_load_p = (p); \
+		__verif_last_load = (unsigned long long)__vlv; __verif_last_load_p = (p); __verif_last_load_mo = -1; \
 		__vlv; })
 #endif
 
 #define os_atomic_load(p, m) ({ \
 		_os_atomic_basetypeof(p) __vl = __VERIF_LOADVAL(p); \
+		__verif_last_load_mo = VMO_##m; \
 		if (VMO_##m != VMO_relaxed && VMO_##m != VMO_dependency) __verif_event(EV_LOAD, VMO_##m, (p), (unsigned long long)__vl, 0); \
 		__vl; })
 #define os_atomic_store(p, v, m) ({ \
@@ -370,6 +372,6 @@ static inline void __verif_trap(void)
  * counterexample is a replayable script */
 #define ND(type) ((type)__verif_nd())
 #define ND_BOOL() ((_Bool)(__verif_nd() & 1))
-#define VERIF_GHOST_RESET() do { __verif_n = 0; __verif_crashed = 0; __verif_crash_is_bug = 0; __verif_last_load = 0; __verif_last_load_p = 0; } while (0)
+#define VERIF_GHOST_RESET() do { __verif_n = 0; __verif_crashed = 0; __verif_crash_is_bug = 0; __verif_last_load = 0; __verif_last_load_p = 0; __verif_last_load_mo = -1; } while (0)
 
 #endif /* __VERIF_MODEL_H__ */
